@@ -78,6 +78,16 @@ def read_config(config_file):
     return config
 
 
+def leftover_name(name):
+    a, b = name.split(".")
+    return a + "_" + sys.implementation.name + "_" + "_".join(str(sys.version_info[i]) for i in range(3)) + "." + b
+
+
+if p.get("leftover") and p.get("dump_name"):
+    # a dump file of a previous run already exists at the dump path (re-running a configuration in place)
+    with open(leftover_name(p["dump_name"]), "wb") as _f:
+        _f.write(b"leftover of a previous run")
+
 run.read_config = read_config
 run.print_start_message = lambda: None
 resume.print_start_message = lambda: None
